@@ -18,6 +18,13 @@ Streams
       string arrays (core.atoms_from_json builds object arrays).  Self carries short values, other long ones, on
       atoms and on every term kind, always with a non-empty identity map, default / zero / extend_types offsets: the
       adopted and appended values must arrive verbatim, not cut to the width of self's column;
+  (N) NEAR-MISS extra-column labels: labels are plain text and two labels are the same column only when they are the
+      same text.  Self and other carry extra columns on atoms and on every term kind, and for 1..5 of the five item
+      kinds the label sets are made "close": a label of other differs from one of self (or from another label of other,
+      or self itself holds two such labels) only in letter case (upper / lower / capitalised / one letter flipped), or
+      by a dropped / added leading underscore, or one is a proper prefix of the other, or they differ by surrounding
+      blank.  Every cell value is unique (self "s<n>", other "o<n>"), so a value that arrives in the wrong column or a
+      column that is dropped / doubled is visible.  Maps empty / partial / full, default / zero / extend_types offsets;
   (Z) zero-atom structures as self and / or as other, in every way the public API produces them: `Atoms()`,
       `Atoms(cell=...)`, the constructor given type tables / coefficient tables / extra-column labels but no atoms,
       and a structure whose atoms were all deleted (tables kept); default and explicit zero offsets, empty identity map
@@ -42,6 +49,7 @@ The oracle works on canonical dumps only and never looks at the model.
 """
 import copy
 import itertools
+import re
 
 from .. import core, gen
 
@@ -55,7 +63,9 @@ RULE = ("pairs (self, other) of random consistent Atoms (1..3 atoms quick / 1..4
         "offsets default, explicit zero, or those returned by extend_types; override stream with forward / reversed / "
         "permuted listings, duplicate and palindromic terms; twice-extension with shared offsets; larger fragments "
         "(9..16 atoms, all but 2..4 mapped, unmapped indices both below and above 8, terms on the unmapped atoms); "
-        "extra fields as fixed-width numpy string arrays with short values in self and long ones in other; zero-atom "
+        "extra fields as fixed-width numpy string arrays with short values in self and long ones in other; near-miss "
+        "extra-column labels (between self and other, inside other, inside self: equal up to letter case, a leading "
+        "underscore, a proper prefix, surrounding blank) on atoms and every term kind with unique cell values; zero-atom "
         "structures (Atoms(), Atoms(cell), constructor with tables only, all atoms deleted) as self and as other; "
         "public spellings: four-entry offsets, maps with negative / numpy integers in several mapping types, indices "
         "just out of range (rejected, self untouched). Text resolution of new ids is "
@@ -476,6 +486,85 @@ def string_field_case(rng):
     return _norm(a), _norm(b), mp
 
 
+NEAR_HOW = ["upper", "lower", "capital", "flip1", "underscore", "prefix", "longer", "blank"]
+
+
+def near_label(rng, l, how):
+    """a label that is NOT `l` but close to it (None when this way gives nothing different)"""
+    if how == "upper":
+        v = l.upper()
+    elif how == "lower":
+        v = l.lower()
+    elif how == "capital":
+        v = "".join(p.capitalize() for p in re.split("(_)", l))
+    elif how == "flip1":
+        idx = [i for i, c in enumerate(l) if c.isalpha()]
+        if not idx:
+            return None
+        i = rng.choice(idx)
+        v = l[:i] + l[i].swapcase() + l[i + 1:]
+    elif how == "underscore":
+        v = l[1:] if l.startswith("_") else "_" + l
+    elif how == "prefix":
+        v = l[:rng.randint(max(1, len(l) - 3), len(l) - 1)] if len(l) > 1 else None
+    elif how == "longer":
+        v = l + rng.choice(["_2", "s", "_", "x"])
+    else:
+        v = rng.choice([l + " ", " " + l])
+    return v if v and v != l else None
+
+
+def _set_labels(j, key, labels, tag, cnt):
+    """give the items of kind `key` exactly the columns `labels`, every cell a fresh unique value"""
+    j["xlabels"][key] = list(labels)
+    for row in (j["atoms"] if key == "atom" else j["terms"][key]):
+        row["x"] = []
+        for _ in labels:
+            cnt[0] += 1
+            row["x"].append("%s%d" % (tag, cnt[0]))
+
+
+def near_label_case(rng):
+    """both structures with extra columns; for some item kinds the label sets of self and other are close but not equal"""
+    na, nb = rng.randint(2, 7), rng.randint(1, 6)
+    coeffs = rng.choice([True, False])
+    a = gen.rand_atoms(rng, n=na, coeffs=coeffs, pair=True, extras=True, cell=rng.random() < 0.2,
+                       term_density=rng.randint(1, 3))
+    b = gen.rand_atoms(rng, n=nb, coeffs=coeffs, pair=True, extras=True, cell=False, term_density=rng.randint(1, 2))
+    keys = ["atom"] + KINDS
+    chosen = rng.sample(keys, rng.randint(1, len(keys)))
+    if rng.random() < 0.7 and "atom" not in chosen:
+        chosen.append("atom")
+    cnt = [0]
+    hows = []
+    for key in keys:
+        la, lb = list(a["xlabels"][key]), list(b["xlabels"][key])
+        if key in chosen:
+            base = (la or lb or ["_x_%s_tag" % key])[0] if rng.random() < 0.7 else rng.choice(["q", "site", "U_iso", "_tag"])
+            how = rng.choice(NEAR_HOW)
+            v = near_label(rng, base, how) or base + "_"
+            where = rng.choice(["between", "between", "in-other", "in-self", "both-sides"])
+            rest_a = [l for l in la if l not in (base, v)][:rng.randint(0, 1)]
+            rest_b = [l for l in lb if l not in (base, v)][:rng.randint(0, 1)]
+            if where == "between":
+                la, lb = rest_a + [base], rest_b + [v]
+            elif where == "in-other":
+                la, lb = rest_a + ([base] if rng.random() < 0.4 else []), rest_b + [base, v]
+            elif where == "in-self":
+                la, lb = rest_a + [base, v], rest_b + [rng.choice([base, v])]
+            else:
+                la, lb = rest_a + [base, v], rest_b + [v, base]
+            rng.shuffle(la)
+            rng.shuffle(lb)
+            hows.append("%s:%s:%s" % (key, how, where))
+        _set_labels(a, key, la, "s", cnt)
+        _set_labels(b, key, lb, "o", cnt)
+    size = rng.choice([0, rng.randint(0, min(na, nb)), min(na, nb)])
+    mp = [[x, v] for x, v in zip(rng.sample(range(nb), size), rng.sample(range(na), size))]
+    return _norm(a), _norm(b), mp, hows
+
+
+
 def offsets_choice(rng, a, b, i):
     """0: default, 1: explicit zero ('ids already shared'), 2: the offsets extend_types returns (applied to its result)"""
     return [None, "zero", "types"][i % 3]
@@ -546,6 +635,13 @@ def cases(ctx):
     for s in range(ctx.n(80, 600)):
         a, b, mp = large_fragment_case(rng)
         out.append(("L", make_case(a, b, mp, offsets_choice(rng, a, b, s))))
+    # (N) near-miss extra-column labels
+    for s in range(ctx.n(150, 1200)):
+        a, b, mp, hows = near_label_case(rng)
+        c = make_case(a, b, mp, offsets_choice(rng, a, b, s))
+        if s % 4 == 3:
+            c["strfields"] = True
+        out.append(("N", c))
     return out
 
 
